@@ -932,8 +932,77 @@ func checkC20(w *World) {
 			}
 			okSkip = recursiveOff && isDir
 		})
+		// every entry that is not a directory is processed: below the IsDir() == false test the walker branches on
+		// nothing but the command's own flags (a filter on the entry's type or name silently skips input files:
+		// symbolic links are not "regular" for the DirEntry the walk hands over)
+		var filters []string
+		allInstrs(walker, func(in ssa.Instruction) {
+			iff, ok := in.(*ssa.If)
+			if !ok {
+				return
+			}
+			file := false
+			for _, a := range guardAtoms(iff.Block()) {
+				if c, ok := a.V.(*ssa.Call); ok && c.Call.IsInvoke() && c.Call.Method.Name() == "IsDir" && !a.Pol {
+					file = true
+				}
+			}
+			if !file {
+				return
+			}
+			flagOnly := false
+			backSlice(iff.Cond, func(v ssa.Value) bool {
+				if mainGlobalLoad(v) != "" {
+					flagOnly = true
+					return false
+				}
+				return true
+			})
+			if !flagOnly {
+				filters = append(filters, w.pos(iff.Pos()))
+			}
+		})
+		w.check(P, "R20.5", "every non-directory entry is processed", walker.Pos(), len(filters) == 0, "branches on something other than a command flag once the entry is known not to be a directory: "+orElse(strings.Join(filters, ", "), "none"))
 		w.check(P, "R20.5", "SkipDir iff -r is off", walker.Pos(), okSkip && nSkip == nSkipOK, fmt.Sprintf("%d returns of fs.SkipDir/SkipAll, %d of them for a directory with the recursive flag false (returned for a file, SkipDir silently drops the rest of that file's directory)", nSkip, nSkipOK))
 	}
+	// -m copies every attribute of an element into the start tag it writes
+	docRule(P, "R20.7", "D", "-m serialisation: the function that builds the xml.StartElement of an element appends one xml.Attr per cursor of Attributes(): the loop over the attributes contains no branch besides its own bound (a filter, a de-duplication by local name or a limit drops attributes, and the record no longer parses back to the same node).")
+	nAttrLoops := 0
+	for _, fn := range all {
+		appendsAttr := false
+		allInstrs(fn, func(in ssa.Instruction) {
+			if c, ok := in.(*ssa.Call); ok {
+				if b, ok := c.Call.Value.(*ssa.Builtin); ok && b.Name() == "append" {
+					if sl, ok := c.Type().Underlying().(*types.Slice); ok {
+						if n, ok := types.Unalias(sl.Elem()).(*types.Named); ok && n.Obj().Pkg() != nil && n.Obj().Pkg().Path() == "encoding/xml" && n.Obj().Name() == "Attr" {
+							appendsAttr = true
+						}
+					}
+				}
+			}
+		})
+		if !appendsAttr {
+			continue
+		}
+		loops := loopBlocks(fn)
+		var extra []string
+		allInstrs(fn, func(in ssa.Instruction) {
+			iff, ok := in.(*ssa.If)
+			if !ok || !loops[iff.Block()] {
+				return
+			}
+			if bo, ok := iff.Cond.(*ssa.BinOp); ok && bo.Op == token.LSS && (ascendingCounter(bo.X) || isCounterPhi2(bo.X)) {
+				return
+			}
+			extra = append(extra, w.pos(iff.Pos()))
+		})
+		nAttrLoops++
+		w.check(P, "R20.7", "attributes copied by "+fn.Name(), fn.Pos(), len(extra) == 0, "branches inside the attribute loop other than its bound: "+orElse(strings.Join(extra, ", "), "none"))
+	}
+	if nAttrLoops == 0 {
+		w.undecided(P, "R20.7", "start-tag writer", 0, "no function of the command appends xml.Attr values")
+	}
+	w.floor(P, "R20.7", 1)
 	nDiag, badDiag := 0, 0
 	for _, fn := range all {
 		allInstrs(fn, func(in ssa.Instruction) {
@@ -1210,4 +1279,16 @@ func simulatePrefix(fn *ssa.Function, suppress, dash bool, suppressVar string) (
 
 func inRepoMain(fn *ssa.Function) bool {
 	return fnPkgKey(fn) == "xsel" && fn.Pkg != nil && fn.Pkg.Pkg.Name() == "main" || (fn.Parent() != nil && fn.Parent().Pkg != nil && fn.Parent().Pkg.Pkg.Name() == "main")
+}
+
+// isCounterPhi2: v is the index of a range loop as go/ssa builds it (phi of -1/0 and itself plus one).
+func isCounterPhi2(v ssa.Value) bool {
+	if bo, ok := v.(*ssa.BinOp); ok && bo.Op == token.ADD {
+		if k, isK := constInt(bo.Y); isK && k == 1 {
+			_, isPhi := bo.X.(*ssa.Phi)
+			return isPhi
+		}
+	}
+	_, isPhi := v.(*ssa.Phi)
+	return isPhi
 }
